@@ -79,7 +79,7 @@ def run_case(case):
     register = case["register"] and kind in ("shared", "crossbar", "decoder")
     decs = [(r.decoder(_Bus), s) for r, s in zip(regions, slaves)]
     if kind == "shared":
-        top.submodules.dut = wishbone.InterconnectShared(masters, decs, register=register, timeout_cycles=None)
+        top.submodules.dut = wishbone.InterconnectShared(masters, decs, register=register, timeout_cycles=case.get("timeout"))
     elif kind == "crossbar":
         top.submodules.dut = wishbone.Crossbar(masters, decs, register=register, timeout_cycles=None)
     elif kind == "arbiter":
@@ -110,7 +110,7 @@ def run_case(case):
     mprobe = [bench.Probe([b.cyc, b.stb, b.we, b.adr, b.sel, b.dat_w, b.ack, b.err, b.dat_r]) for b in masters]
     sprobe = [bench.Probe([b.cyc, b.stb, b.we, b.adr, b.sel, b.dat_w, b.ack, b.err, b.dat_r]) for b in slaves]
     agents += mprobe + sprobe
-    limit = 80 + sum(len(p) for p in case["progs"]) * 40
+    limit = 300 + sum(len(p) for p in case["progs"]) * 150
     cyc = bench.run(top, agents, limit, stop=lambda t: all(a.finished() for a in mags))
     cls = ["kind:" + kind, "M%dS%d" % (M, S), "registered" if register else "comb-decode"]
 
@@ -283,10 +283,28 @@ def enum_small(tier):
     return out
 
 
+def enum_streak(tier):
+    """a configured time-out must not disturb requests that are answered in time: one master keeps cyc and stb
+    asserted over a streak of back-to-back requests much longer than the time-out (slave latency 0..2 << T)"""
+    out = []
+    for T in (4, 8, 16):
+        for go in (["const", 1], ["per", [0, 1], 0], ["per", [0, 0, 1], 0]):
+            for M in (1, 2):
+                progs = []
+                for m in range(M):
+                    progs.append([{"we": n % 2, "badr": WINDOWS[n % 2][0] + 4 * (n % 8), "dat": 0x100 * m + n, "sel": 15, "gap": 0, "hold": True, "hole": False}
+                                  for n in range(3 * T + 6)])
+                out.append({"kind": "shared", "M": M, "S": 2, "wins": [list(WINDOWS[0]), list(WINDOWS[1])], "register": False, "progs": progs,
+                            "go": [go, go], "seed": 3, "timeout": T})
+    return out
+
+
 def subchecks():
     return [
         Sub("interconnect", run_case, strategy=st_case, examples=(2000, 60000),
             rule="generated topologies, maps, request programs and ack schedules"),
+        Sub("timeout-streak", run_case, enum=enum_streak, exhaustive=True, shards=(4, 4),
+            rule="shared interconnect with a configured time-out T in {4,8,16}: streaks of 3T+6 back-to-back held requests answered within 0..2 cycles"),
         Sub("small-exhaustive", run_case, enum=enum_small, exhaustive=True,
             rule="2x2 shared/crossbar: ALL start offsets (0..5)^2 x held cyc x targets x registered x 3 slave latencies"),
     ]
